@@ -389,6 +389,37 @@ pub fn h_c11_counter_wide(inp: &Inp) -> u8 {
     }
 }
 
+//@ harness props=C11 covers=3 name=GCounter / PNCounter read with actor totals in {absent, 2^63, 2^64-1}: the sum / difference is exact beyond 2^64 (no machine-word wrap, no lost actor)
+#[no_mangle]
+pub fn h_c11_read_wide(inp: &Inp) -> u8 {
+    const W: [u64; 3] = [0, 1 << 63, u64::MAX];
+    let mut i = In::new(inp);
+    let mut p = [0u64; NAU];
+    let mut n = [0u64; NAU];
+    let mut a = 0;
+    while a < NAU {
+        p[a] = W[i.below(3) as usize];
+        n[a] = W[i.below(3) as usize];
+        a += 1;
+    }
+    if !i.ok {
+        return 2;
+    }
+    let g = wspec(&p);
+    if g.read() != BigUint::from(wsum(&p)) {
+        return 0;
+    }
+    let pn = pacc::from_parts(wspec(&p), wspec(&n));
+    if pn.read() != BigInt::from(wsum(&p) as i128) - BigInt::from(wsum(&n) as i128) {
+        return 0;
+    }
+    if wsum(&p) > u64::MAX as u128 {
+        3
+    } else {
+        1
+    }
+}
+
 /// number of ops in the register / set universes
 const NW: usize = 3;
 
